@@ -78,6 +78,10 @@ pub fn xargs(sc: &XargsScenario, plan: &[ReadOp], ctx: &mut Ctx, bins: &Path) ->
         return Xc::NotComparable;
     }
     let fake = run_xargs_with(sc, plan, ctx);
+    if fake.log.spawns().len() > 2000 {
+        // (tens of thousands of real child processes would take minutes)
+        return Xc::NotComparable;
+    }
     let dir = ctx.scratch.join("xc");
     crate::sys::wipe(&dir);
     let _ = std::fs::create_dir_all(&dir);
@@ -241,6 +245,10 @@ pub fn find(sc: &FindScenario, ctx: &mut Ctx, bins: &Path, cmd_token: &str) -> X
         return Xc::NotComparable;
     }
     if script_of(&sc.outcomes).is_none() || sc.ambient.nofile_headroom.is_some() || sc.real_children || sc.long_cwd.is_some() || sc.cwd_sub.is_some() {
+        return Xc::NotComparable;
+    }
+    // (tens of thousands of real child processes would take minutes)
+    if sc.tree.bulk.iter().any(|b| b.count > 5000) && sc.argv.iter().any(|a| a == cmd_token) {
         return Xc::NotComparable;
     }
     // the two copies of the tree stand in parents of their own that hold nothing else: a link
